@@ -506,7 +506,11 @@ class DAGRunConcurrentManager(DAGRunManagerLike):
 
             await self._lock_manager.wait_for_condition(
                 node_id,
-                functools.partial(self._is_ready_to_execute, dag, node_id),
+                lambda: (
+                    self._is_ready_to_execute(dag, node_id)  # noqa: B023
+                    # A OneOf subgraph stops on the first error, the node may never become ready
+                    or (dag.is_oneof and self.__has_subgraph_error(dag))
+                ),
             )
 
             if dag.is_oneof and self.__has_subgraph_error(dag):
@@ -541,6 +545,16 @@ class DAGRunConcurrentManager(DAGRunManagerLike):
         )
 
         return self._node_storage.get_node_result(dag.dest, with_hidden=True)
+
+    def __get_subgraph_error(self, dag: DiGraph) -> t.Optional[BaseException]:
+        """
+        Get the first error of the subgraph
+        """
+        for node_id in dag.nodes:
+            if self._node_storage.exists_node_error(node_id):
+                return self._node_storage.get_node_result(node_id)
+
+        return None
 
     def __has_subgraph_error(self, dag: DiGraph) -> bool:
         """
@@ -629,13 +643,22 @@ class DAGRunConcurrentManager(DAGRunManagerLike):
 
             await self.__raise_exc(error)
 
-        result = await self._run_dag(
-            dag=self._get_reduced_dag(
-                self.dag.input_node,
-                (self._node_storage.get_switch_result(node_id)).node_id,
-                is_oneof=dag.is_oneof,
-            ),
+        switch_dag = self._get_reduced_dag(
+            self.dag.input_node,
+            (self._node_storage.get_switch_result(node_id)).node_id,
+            is_oneof=dag.is_oneof,
+            is_nested_oneof=dag.is_nested_oneof,
         )
+
+        result = await self._run_dag(dag=switch_dag)
+
+        if dag.is_oneof and self.__has_subgraph_error(switch_dag):
+            # The selected case has failed inside a OneOf candidate. The nodes of the case may be outside
+            # the subgraph of the candidate, so the error is stored for the switch to fail the candidate.
+            self._node_storage.set_node_result(node_id, self.__get_subgraph_error(switch_dag))
+            await self.__unlock_descendants(node_id)
+            await self.__unlock_itself(dag.dest)
+            return None
 
         # The selected case may have been computed before the switch was resolved (nothing to run),
         # so the nodes waiting for the switch have to be notified explicitly.
